@@ -41,6 +41,36 @@ CHECKS = {
             "Every Vector operator and constructor and every f64 MomTropFloat method is evaluated on the complete product of a boundary-value alphabet and compared bit-for-bit with componentwise IEEE arithmetic accumulated from +0 at index 0 upward.",
             "Trusted: Rust's f64 arithmetic as the IEEE reference. NaN payloads not compared.",
             "DESIGN.md §5/C20"),
+    "C07": ("sampler", "model_checking",
+            "stateless deviation-bounded exploration of the sampler state machine (all E! sectors x answer sequences with <=k deviations), every execution replayed against the reference machine",
+            "For every admissible configuration of the family, every sector is entered and every answer sequence within the deviation bound (full alphabet product for small graphs) is executed on the real sampler with debug logging; the logged unrescaled parameters are compared with the sector formula computed from the oracle's own exact omegas, the logged tropical polynomials with brute-force maxima over spanning trees / F monomials in exact rationals, and the rescaling with the normalisation identity.",
+            "Trusted: oracle crate; the `log` feature as observation window. Domain clauses G1-G5 (DESIGN §4.3); selection answers closer than 1e-9 to a boundary are excluded as the property states.",
+            "DESIGN.md §5/C07"),
+    "C08": ("sampler", "model_checking",
+            "stateless exploration of sectors x answer deviations x routing orbit (all elementary unimodular basis changes, all edge flips), exact spanning-tree oracle",
+            "Every explored execution's L matrix is checked bitwise symmetric and entry-wise against the exact sum; u against the exact spanning-tree polynomial (tolerance 2^-52*2^14*cond_1(L)); and u is compared across the whole routing orbit at fixed x.",
+            "Trusted: oracle tree enumeration (unit-tested against the matrix-tree theorem). Graphs with 1..5 loops (bananas, flowers, family up to E<=5).",
+            "DESIGN.md §5/C08"),
+    "C09": ("sampler", "model_checking",
+            "stateless exploration of sectors x answer deviations x routing orbit incl. loop-momentum offsets, exact 2-forest oracle",
+            "Every explored execution's u_vectors and v are compared with the exact 2-forest polynomial F/U (tolerance scaled by the exact cancellation ratio), and u, v, jacobian and the logged Feynman parameters are compared across cycle bases, orientations and offsets at fixed x.",
+            "Trusted: oracle forest enumeration and kinematics generator (momentum conservation asserted for every routing).",
+            "DESIGN.md §5/C09"),
+    "C10": ("sampler", "model_checking",
+            "stateless deviation-bounded exploration incl. Gamma and Box-Muller answers; exact quadratic-form identity per execution",
+            "Every explored execution (all (D,L) cells 1..6 x 1..5 through bananas and flowers, plus the family) is checked for the quadratic-form identity at the returned momenta, shift = L^-1 u exactly, and the linear form Q^T(k+shift) = sqrt(v/2 lambda) q which pins the orientation of the factor.",
+            "Trusted: exact rational evaluation from the returned f64 values; condition-scaled tolerance.",
+            "DESIGN.md §5/C10"),
+    "C11": ("sampler", "model_checking",
+            "stateless deviation-bounded exploration; jacobian recomputed from returned u,v and from the gauge-free oracle formula at rescaled and unrescaled parameters",
+            "Every explored execution: u_trop = v_trop = 1 exactly; jacobian equals normalisation*u^(-D/2)*v^(-dod) from the returned fields; and equals the oracle's I_tr Gamma(dod)/prod Gamma(nu) pi^(DL/2) (U_tr/U)^(D/2) (V_tr/V)^dod evaluated in exact arithmetic at both the rescaled and the unrescaled logged parameters (gauge invariance).",
+            "Trusted: oracle J recursion, libm Gamma, brute-force tropical maxima.",
+            "DESIGN.md §5/C11"),
+    "C13": ("sampler", "model_checking",
+            "exhaustive (a,b) alphabet product on two pairs, <=2 deviations elsewhere, over all 30 (D,L) cells",
+            "All 30 (D,L) cells: every Gaussian component of every explored execution is compared with the Box-Muller transform of its designated pair (layout loop-major, last sine dropped for odd D*L).",
+            "Trusted: libm sqrt/log/sin/cos as reference.",
+            "DESIGN.md §5/C13"),
 }
 
 NOT_BUILT_REASON = "check not built yet in this session (see DESIGN.md §10 for the plan); not claimed until it passes and has been mutation-tested"
